@@ -19,7 +19,7 @@ FUNCTIONS = [
 ]
 BOUNDS = {
     "bins": "quick: 3 bins on one chromosome or 2 + 2 on two (chr1, chrX); thorough: 4 / 3 + 2 (the 3 + 2 tables with concrete weights 0.5, 1, 0.25, 0.75, 0.625); coordinates symbolic, sorted, disjoint",
-    "values": "log2 symbolic in [-30, 10] (null-coverage reachable), weight symbolic in [0, 1] (0 reachable), depth symbolic >= 0; gene names concrete incl. duplicates, Antitarget and ignored names",
+    "values": "log2 symbolic in [-30, 10] (null-coverage reachable), weight symbolic in [0, 1] (0 reachable), depth symbolic >= 0; gene names concrete incl. duplicates, Antitarget and ignored names (two namings: A,B,A,Antitarget,-,C with filters on; A,-,B,.,CGH,Background with no filter)",
     "methods": "none, haar, hmm, hmm-tumor, hmm-germline; skip_low on/off; min_weight 0 / 0.3; outlier filter off (it needs > 50 bins) or an arbitrary solver-chosen outlier mask",
     "arms": "one arm per chromosome (an arm split needs > 101 bins)",
 }
@@ -41,11 +41,13 @@ M = 10**6
 LOW = params.NULL_LOG2_COVERAGE - params.MIN_REF_COVERAGE
 MEANINGLESS = ("-", ".", "CGH", "Antitarget", "Background")
 GENES = ["A", "B", "A", "Antitarget", "-", "C"]
+# second naming: the placeholder names among the first bins (used by the configurations without filters)
+GENES_B = ["A", "-", "B", ".", "CGH", "Background"]
 
 
-def sym_bins(ctx, chroms):
+def sym_bins(ctx, chroms, genes=GENES):
     n = len(chroms)
-    cols = {"chromosome": chroms, "start": [], "end": [], "gene": GENES[:n], "log2": [], "depth": [], "weight": []}
+    cols = {"chromosome": chroms, "start": [], "end": [], "gene": list(genes[:n]), "log2": [], "depth": [], "weight": []}
     prev = {}
     for i, c in enumerate(chroms):
         s = ctx.int(f"s{i}", 0, M)
@@ -63,7 +65,7 @@ def sym_bins(ctx, chroms):
 
 
 def h_segment(ctx, chroms, method, skip_low, min_weight, outliers=False, case=None, real_haar=False, weights=None):
-    cols = sym_bins(ctx, chroms)
+    cols = sym_bins(ctx, chroms, GENES_B if (not skip_low and not min_weight and not outliers) else GENES)
     if weights is not None:
         # the weighted Haar wavelet is a quotient of weighted sums: with symbolic weights its
         # comparisons go `unknown`, so the real-HaarSeg variant runs with concrete weights
